@@ -77,6 +77,7 @@ int main(int argc, char** argv) {
         const EngineDef* eng = find_engine(a["engine"]);
         if (!eng) { fprintf(stderr, "unknown engine '%s'\n", a["engine"].c_str()); return 2; }
         Counters ctr;
+        unsigned run_timeout = getenv("VERIF_RUN_TIMEOUT") ? (unsigned)atoi(getenv("VERIF_RUN_TIMEOUT")) : 60;
         if (cmd == "batch") {
             uint64_t base = strtoull(a["base"].c_str(), nullptr, 10);
             uint64_t start = strtoull(a["start"].c_str(), nullptr, 10), count = strtoull(a["count"].c_str(), nullptr, 10);
@@ -99,7 +100,9 @@ int main(int argc, char** argv) {
                 cx.describe = samples < 2;
                 cx.log.reset(false);
                 printf("B %llu %llu %u\n", (unsigned long long)i, (unsigned long long)cx.seed, cx.slot);
+                alarm(run_timeout);   // containment only: a run that does not end is reported as crash/timeout by the driver
                 eng->fn(cx);
+                alarm(0);
                 runs++;
                 events += cx.log.count;
                 distinct_hashes.insert(cx.log.hash);
@@ -149,7 +152,9 @@ int main(int argc, char** argv) {
             }
             cx.log.reset(a.count("trace"));
             printf("B 0 %llu\n", (unsigned long long)cx.seed);
+            alarm(run_timeout);
             eng->fn(cx);
+            alarm(0);
             uint64_t h1 = cx.log.hash;
             if (a.count("twice")) {
                 RunCtx c2;
